@@ -46,7 +46,7 @@ def plan(tier, prop):
                             "preexisting_waiting", "fill_id_wrap",
                             "op_timeout", "ff_miss_start", "ff_miss_block",
                             "ff_miss_end", "full_blocks_plus_scattered",
-                            "complete_16x16_block", "max_blocks_binary"],
+                            "complete_16x16_block", "max_blocks_binary", "binary_rebuilt_at_same_path"],
         "knob_ranges": {"buffer_size": BUFFERS, "machine": "1x1..16x16 "
                         "(thorough also 64x64/255x255 sparse)",
                         "binaries": "1-4, 4 bytes .. 6 buffers",
@@ -245,6 +245,12 @@ class LoadEngine(object):
                 size = [255 * B, 255 * B - 4, 254 * B + 4, 254 * B][t.draw(4)]
                 w.probe("max_blocks_binary")
             name = "/sim/app%d_%d.aplx" % (self.n_loads, b)
+            if t.draw(2):
+                # the same path as in an earlier load, rebuilt since (other
+                # content, possibly another length)
+                name = "/sim/app_%d.aplx" % b
+                if name in self.files:
+                    w.probe("binary_rebuilt_at_same_path")
             data = bytes(((b * 37 + self.n_loads * 11 + i * 7) ^ (i >> 8))
                          & 0xff for i in range(size))
             if not free:
